@@ -148,8 +148,9 @@ pub fn transcript(tier: Tier, seed: u64) -> Vec<String> {
         mods.push(("10^20", U::from_u64(10_000_000_000).mul(&U::from_u64(10_000_000_000))));
         mods.push(("3*2^64", U::from_u64(3).mul(&p2(64))));
     }
-    let gens: Vec<u8> = if tier == Tier::Thorough { (2..=255).collect() } else { vec![2, 3, 5, 7, 11, 13, 64, 128, 183, 250, 251, 254, 255] };
-    let a_alpha: Vec<[u8; 32]> = vec![[0u8; 32], le32_from_u64(1), le32_from_u64(2), le32_from_u64(250), n_plus(-1), [0xFF; 32], refmodel::ctr_array::<32>(seed, "t-ga")];
+    let gens: Vec<u8> = if tier == Tier::Thorough { (2..=255).collect() } else { vec![2, 3, 4, 5, 7, 8, 11, 13, 16, 64, 128, 183, 250, 251, 254, 255] };
+    // 64/128/192: with g a power of two the client's key is 2^(k*a), i.e. has zero low 64-bit limbs
+    let a_alpha: Vec<[u8; 32]> = vec![[0u8; 32], le32_from_u64(1), le32_from_u64(2), le32_from_u64(64), le32_from_u64(128), le32_from_u64(192), le32_from_u64(250), n_plus(-1), [0xFF; 32], refmodel::ctr_array::<32>(seed, "t-ga")];
     let b_alpha: Vec<[u8; 32]> = vec![le32_from_u64(1), le32_from_u64(1234567), n_plus(1), [0xFF; 32], refmodel::ctr_array::<32>(seed, "t-gB")];
     let salt = refmodel::ctr_array::<32>(seed, "t-gsalt");
     let jobs: Vec<(usize, u8)> = (0..mods.len()).flat_map(|m| gens.iter().map(move |g| (m, *g))).collect();
@@ -187,7 +188,12 @@ pub fn transcript(tier: Tier, seed: u64) -> Vec<String> {
     // C04: the server's own B steered into special values; C14: hostile B on the client
     let gb = U::from_u64(7).modpow(&U::from_u64(5), &n);
     let inv3 = U::from_u64(3).inv_prime(&n);
-    for t in [[0u8; 32], le32_from_u64(1), le32_from_u64(183), n_plus(-1)] {
+    let limb = |k: usize| {
+        let mut t = [0u8; 32];
+        t[k] = 1;
+        t
+    };
+    for t in [[0u8; 32], le32_from_u64(1), le32_from_u64(183), n_plus(-1), limb(8), limb(16), limb(24), limb(31)] {
         let tt = U::from_le_bytes(&t).rem(&n);
         let v = U::submod(&tt, &gb, &n).mulmod(&inv3, &n).to_le_padded::<32>();
         let (r, _, _) = with_script(&le32_from_u64(5), || *SrpVerifier::from_database_values(ns("A"), v, [0u8; 32]).into_proof().server_public_key());
